@@ -4,7 +4,7 @@
 #   selftest_seeded.sh [TARGET_DIR] [ID_k ...]          (default: all seeds; results to stdout, one line each)
 TD=${1:-/var/tmp/rt-target-I}; shift
 HERE=$(cd "$(dirname "$0")" && pwd)
-SEEDS=${*:-$(ls /verif/seeded)}
+SEEDS=${*:-$(cd /verif/seeded && ls -d */ | tr -d /)}
 MUT=/var/tmp/rtmut
 for s in $SEEDS; do
   id=${s%%_*}
